@@ -1004,6 +1004,10 @@ class Exec:
             one = z3.And(z3.Length(x) == 1, z3.Length(y) == 1)
             lex = {ast.Lt: x < y, ast.LtE: x <= y, ast.Gt: y < x, ast.GtE: y <= x}[type(op)]
             code = {ast.Lt: cx < cy, ast.LtE: cx <= cy, ast.Gt: cx > cy, ast.GtE: cx >= cy}[type(op)]
+            if a.ty == 'char' and b.ty == 'char':
+                # both have at most one character (a character literal, s[i], an element of a str iteration; an out-of-range s[i]
+                # inside a specification is the empty string): code order and lexicographic order coincide (str.to_code("") = -1)
+                return code
             return z3.If(one, code, lex)
         return {ast.Lt: x < y, ast.LtE: x <= y, ast.Gt: y < x, ast.GtE: y <= x}[type(op)]
 
@@ -1182,6 +1186,11 @@ class Exec:
             s_ = sv(base.t) if base.ty != 'bytes' else yv(base.t)
             lo, hi = self.slice_bounds(sl, z3.Length(s_), st)
             r = z3.SubString(s_, lo, z3.If(hi > lo, hi - lo, 0))
+            if not self.spec_mode:
+                # valid string fact, stated so that character-wise specifications instantiate: the k-th character of a slice is
+                # the (lo+k)-th character of the text
+                k = z3.Int(fresh_name('sk'))
+                st.assume(z3.ForAll([k], z3.Implies(z3.And(0 <= k, k < z3.Length(r)), z3.SubString(r, k, 1) == z3.SubString(s_, lo + k, 1))))
             return Val(mk_s(r), 'str') if base.ty != 'bytes' else Val(mk_y(r), 'bytes')
         if base.ty in ('list', 'tuple'):
             q = self.seq_of(st, base)
